@@ -371,8 +371,10 @@ def _main(argv):
         status = 2
     vac = coverage.get('vacuity_failures')
     if vac:
-        print('harness error: vacuity guards failed: %s' % vac)
-        status = 2
+        # a vacuity guard protects against a silent pass; next to confirmed violations it is reported but does not replace them
+        print('%s: vacuity guards failed: %s' % ('harness error' if status == 0 else 'note', vac))
+        if status == 0:
+            status = 2
     os.makedirs(EVID, exist_ok=True)
     with open(os.path.join(EVID, pid + '.json'), 'w') as f:
         json.dump(ev, f, indent=1, sort_keys=True, default=str)
